@@ -33,6 +33,9 @@ Lemma w_event_nested_repaired : repaired w_event_nested false /\ repaired w_even
 Proof. vm_compute. repeat split; reflexivity. Qed.
 Lemma w_same_event_twice_repaired : repaired w_same_event_twice false /\ repaired w_same_event_twice true.
 Proof. vm_compute. repeat split; reflexivity. Qed.
+Lemma w_rebind_ok : repaired w_rebind false /\ repaired w_rebind true /\
+  events w_rebind = [(L "summary-ready", L "Summary"); (L "copy-ready", L "Summary"); (L "other-ready", L "Other")]%string.
+Proof. vm_compute. repeat split; reflexivity. Qed.
 Lemma w_ipc_channel_ok : repaired w_ipc_channel false /\ repaired w_ipc_channel true.
 Proof. vm_compute. repeat split; reflexivity. Qed.
 Lemma w_event_head_fails : in_class (kf_event_head w_event_head) w_event_head false.
